@@ -95,12 +95,24 @@ class MTSPEnv(RL4COEnvBase):
         # If done is True, then we make the depot available again, so that it will be selected as the next node with prob 1
         available[..., 0] = torch.logical_or(done, available[..., 0])
 
+        # Instances that were already done are only being padded (e.g. waiting for batch-mates):
+        # their tour is closed and must not be charged again
+        was_done = (
+            td["done"].reshape(done.shape)
+            if "done" in td.keys()
+            else torch.zeros_like(done)
+        )
+
         # Update the current length
-        current_length = td["current_length"] + get_distance(cur_loc, prev_loc)
+        current_length = td["current_length"] + get_distance(cur_loc, prev_loc) * (
+            ~was_done
+        )
 
         # If done, we add the distance from the current_node to the depot as well
         current_length = torch.where(
-            done, current_length + get_distance(cur_loc, depot_loc), current_length
+            done & ~was_done,
+            current_length + get_distance(cur_loc, depot_loc),
+            current_length,
         )
 
         # We update the max_subtour_length and reset the current_length
